@@ -377,7 +377,7 @@ def to_coq(case, obs):
     elif reader == "newick":
         rd = "RNewick"
     elif reader == "nexus":
-        rd = "(RNexus %s %s)" % (cbool(VARIANTS["link_fixed"]), cbool(VARIANTS["positions_fixed"]))
+        rd = "(RNexus (mkFix %s))" % " ".join(cbool(VARIANTS[n]) for n in NFIX_ORDER)
     else:
         raise ValueError(reader)
     syms = clist(["(%s, %s)" % (cz(ord(k)), cz(ord(v))) for k, v in sorted(dna_symbol_table().items())])
@@ -410,16 +410,20 @@ def modelled(case):
 # which form of the recorded defect sites does the working tree have? (DESIGN 5.2)
 # ---------------------------------------------------------------------------------------------
 
+NFIX_ORDER = ["link", "positions", "step0", "empty", "taxlabels_eof", "taxlabels_nodims", "tree_eof", "untitled",
+              "blockterm", "datatype", "truncmatrix", "charsetdup"]
+
+
 def probe_variants():
+    """replay the witness of every recorded defect site: True = the site is repaired in the working tree"""
     v = {}
     ob = observe_text("phylip", "2 4\na ACGT\na ACGT\nb ACGT\n", {})
     v["phylip_fmt_fixed"] = ob["cls"] != "TypeErr"
     ob = observe_text("phylip", "2 4\na ACGT\nb ACG\n", {})
     v["phylip_dims_fixed"] = ob["cls"] == "ParseErr"
-    ob = observe_text("nexus", "#NEXUS\nBEGIN TREES;\nLINK FOO = x;\nEND;\n", {})
-    v["link_fixed"] = ob["cls"] != "Hang"
-    ob = observe_text("nexus", G.NEXUS_CHARSET_PROBE, {})
-    v["positions_fixed"] = ob["cls"] != "Hang"
+    for name, (text, broken_cls) in G.NEXUS_SITE_WITNESS.items():
+        ob = observe_text("nexus", text, {})
+        v[name] = ob["cls"] != broken_cls
     return v
 
 
@@ -473,7 +477,8 @@ def run(tier, seed, replay=None):
     CONFIRMATIONS = 1 if tier == "quick" else 2
     VARIANTS = probe_variants()
     ctx.notes.append("defect-site forms of the working tree: %s" % json.dumps(VARIANTS, sort_keys=True))
-    ok = core.proof_stage(ctx, ["Props/C20.vo"], gen_needed=("ReaderLoops", "CharClasses"))
+    # -k and the model targets first: the models must be rebuilt from the new Gen even when a proof breaks
+    ok = core.proof_stage(ctx, ["-k", "Model/C20Case.vo", "Props/C20.vo"], gen_needed=("ReaderLoops", "CharClasses"))
     if not ok:
         core.broken_proof(ctx, search)
 
